@@ -67,7 +67,8 @@ def make_case(rng: random.Random):
         places = 9
         big = rng.choice([10**5, 10**6]) if tps <= 1000 else 10**4
         kk = rng.randint(big * tps // 2, big * tps)
-        eps = F(rng.choice([2, 4, 7]), 10**4) if big >= 10**5 else F(rng.choice([2, 5]), 10**6)
+        # closer than one part in 10^9 of their magnitude, yet different arrival times in different ticks
+        eps = max(F(1, 10**9), F(round(kk / tps * rng.choice([1, 2, 4])), 10**10))
         arr = [F(kk, tps) - eps, F(kk, tps) + eps] + ([F(kk + 3, tps)] if rng.random() < 0.5 else [])
         arr = [a for a in arr if a >= 0]
         k, t0 = kk + 3, kk - 3
